@@ -27,6 +27,7 @@ type wireCase struct {
 	// object kept per UE); what is decoded into it afterwards must be this message and nothing of the earlier one
 	Prev *wireCase `json:"received_before,omitempty"`
 	Twin bool      `json:"framing_twin,omitempty"` // derived by framingTwin from another well-formed message of the same length
+	Log  string    `json:"nas_log_level,omitempty"` // logrus level of the NAS library's logger while the case runs ("" = default)
 }
 
 func (c *wireCase) value() (*binding, *refnas.Value, error) {
@@ -273,8 +274,10 @@ func genWire(t *rapid.T) wireCase {
 	// a mixed 64-bit draw so that all 45 types get the same share of the cases
 	b := bs[drawIndex(t, len(bs), "msg")]
 	c := drawWire(t, b, nil)
+	c.Log = rapid.SampledFrom([]string{"", "", "", "", "", "", "", "debug", "trace", "error"}).Draw(t, "nas_log_level")
 	if rapid.IntRange(0, 5).Draw(t, "twin") == 0 {
 		if tw, ok := framingTwin(b, c, rapid.IntRange(1, 3).Draw(t, "twin_k"), rapid.IntRange(0, 7).Draw(t, "twin_at")); ok {
+			tw.Log = c.Log
 			return tw
 		}
 	}
